@@ -128,14 +128,6 @@ Section Symmetric.
 End Symmetric.
 
 (* ------------------------------------------------------------------ number of steps *)
-Definition w_nsteps := nsteps (dec 1 0) (dec 1 3) (dec 1 1).
-
-Lemma nsteps_witness :
-  w_nsteps = Some 2%Z /\ nsteps_fixed (dec 1 0) (dec 1 3) (dec 1 1) = Some 3%Z /\
-  PrimFloat.eqb (dec 1 3) 0x1.3333333333333p-2%float = true /\
-  PrimFloat.eqb (dec 1 1) 0x1.999999999999ap-4%float = true.
-Proof. repeat split; vm_compute; reflexivity. Qed.
-
 Lemma grid3 (f : Z -> Z -> Z -> bool) la lb lc :
   forallb (fun a => forallb (fun b => forallb (fun c => f a b c) lc) lb) la = true ->
   forall a b c, In a la -> In b lb -> In c lc -> f a b c = true.
@@ -149,45 +141,28 @@ Lemma grid4 (f : nat -> Z -> Z -> Z -> bool) lk la lb lc :
 Proof.
   intros G k a b c Hk. rewrite forallb_forall in G. specialize (G k Hk). now apply grid3.
 Qed.
-
-(* on integer-valued times the truncation is exact (bounded: all 0 <= a <= b <= 40, 1 <= c <= 40) *)
 Definition zrange (lo n : nat) : list Z := map Z.of_nat (seq lo n).
-Definition int_grid_f (a b c : Z) : bool :=
-  if (a <=? b)%Z then ozeqb (nsteps (fz a) (fz b) (fz c)) (Some ((b - a) / c)%Z) else true.
-Lemma int_grid_ok :
-  forallb (fun a => forallb (fun b => forallb (fun c => int_grid_f a b c) (zrange 1 40)) (zrange 0 41)) (zrange 0 41) = true.
-Proof. vm_compute. reflexivity. Qed.
 Lemma ozeqb_some x v : ozeqb x (Some v) = true -> x = Some v.
 Proof. destruct x as [y|]; cbn; [|discriminate]. intros H. apply Z.eqb_eq in H. now subst. Qed.
-Theorem int_grid_thm a b c :
-  In a (zrange 0 41) -> In b (zrange 0 41) -> In c (zrange 1 40) -> (a <= b)%Z ->
-  nsteps (fz a) (fz b) (fz c) = Some ((b - a) / c)%Z.
-Proof.
-  intros Ha Hb Hc Hab. pose proof (grid3 _ _ _ _ int_grid_ok a b c Ha Hb Hc) as G.
-  unfold int_grid_f in G. apply Z.leb_le in Hab. rewrite Hab in G. now apply ozeqb_some.
-Qed.
 
-(* with rounding to nearest (the proposed repair) decimal grids come out right
-   (bounded: one and two decimals, a < 20, 1 <= c <= 30, 1 <= m <= 40) *)
+(* StateEvolution.execute with int(round(...)): times given with k decimals (k = 0: integers),
+   T - t0 = m dt exactly as decimals  =>  m steps.
+   BOUNDED, exhaustive: k in 0..3, 0 <= a < 20, 1 <= c <= 30, 1 <= m <= 40 (96 000 float triples) *)
 Definition dec_grid_f (k : nat) (a c m : Z) : bool :=
-  ozeqb (nsteps_fixed (dec k a) (dec k (a + m * c)) (dec k c)) (Some m).
-Lemma dec_grid_fixed_ok :
+  ozeqb (nsteps (dec k a) (dec k (a + m * c)) (dec k c)) (Some m).
+Lemma dec_grid_ok :
   forallb (fun k => forallb (fun a => forallb (fun c => forallb (fun m => dec_grid_f k a c m)
-    (zrange 1 40)) (zrange 1 30)) (zrange 0 20)) [1; 2] = true.
+    (zrange 1 40)) (zrange 1 30)) (zrange 0 20)) [0; 1; 2; 3] = true.
 Proof. vm_compute. reflexivity. Qed.
-Theorem dec_grid_fixed_thm k a c m :
-  In k [1; 2] -> In a (zrange 0 20) -> In c (zrange 1 30) -> In m (zrange 1 40) ->
-  nsteps_fixed (dec k a) (dec k (a + m * c)) (dec k c) = Some m.
+Theorem dec_grid_thm k a c m :
+  In k [0; 1; 2; 3] -> In a (zrange 0 20) -> In c (zrange 1 30) -> In m (zrange 1 40) ->
+  nsteps (dec k a) (dec k (a + m * c)) (dec k c) = Some m.
 Proof.
-  intros Hk Ha Hc Hm. pose proof (grid4 _ _ _ _ _ dec_grid_fixed_ok k a c m Hk Ha Hc Hm) as G.
+  intros Hk Ha Hc Hm. pose proof (grid4 _ _ _ _ _ dec_grid_ok k a c m Hk Ha Hc Hm) as G.
   now apply ozeqb_some.
 Qed.
-(* and how often the code's truncation is wrong on the same grid *)
-Definition dec_grid_trunc_failures : nat :=
-  length (filter (fun x => negb x)
-    (flat_map (fun k => flat_map (fun a => flat_map (fun c => map (fun m =>
-       ozeqb (nsteps (dec k a) (dec k (a + m * c)) (dec k c)) (Some m))
-    (zrange 1 40)) (zrange 1 30)) (zrange 0 20)) [1; 2])).
+Lemma nsteps_example : nsteps (dec 1 0) (dec 1 3) (dec 1 1) = Some 3%Z.
+Proof. vm_compute. reflexivity. Qed.
 
 (* ------------------------------------------------------------------ exponential solver *)
 Theorem exp_steps n c P psi k : wfm (2 ^ n) (2 ^ n) P -> wfm (2 ^ n) c psi ->
